@@ -109,7 +109,7 @@ impl LineProgram {
         // We require a special opcode for a line advance of 0.
         // See the debug_asserts in generate_row().
         assert!(line_encoding.line_base <= 0);
-        assert!(line_encoding.line_base + line_encoding.line_range as i8 > 0);
+        assert!(i16::from(line_encoding.line_base) + i16::from(line_encoding.line_range) > 0);
         let mut program = LineProgram {
             none: false,
             encoding,
@@ -445,7 +445,9 @@ impl LineProgram {
         let special_base = u64::from(OPCODE_BASE);
         // TODO: handle lack of special opcodes for 0 line advance
         debug_assert!(self.line_encoding.line_base <= 0);
-        debug_assert!(self.line_encoding.line_base + self.line_encoding.line_range as i8 >= 0);
+        debug_assert!(
+            i16::from(self.line_encoding.line_base) + i16::from(self.line_encoding.line_range) > 0
+        );
         let special_default = special_base.wrapping_sub(line_base);
         let mut special = special_default;
         let mut use_special = false;
